@@ -112,6 +112,16 @@ fn check_fault(bs: &[Backend], f: &Fault, rep: &mut Report) {
         Some(s) => s.clone(),
         None => lab::token_string(b.ver, f.purpose, &f.payload, &f.footer),
     };
+    // a text-level fault that is the canonical spelling of the very token sealed (the one alias: a dot after a footer-less
+    // token) is not a modified token (text faults carry the original payload and footer in the fault record)
+    if f.text.is_some() {
+        if let Some((p, ft)) = lab::token_parts_strict(&text) {
+            if p == f.payload && ft == f.footer {
+                rep.count("fault.noop");
+                return;
+            }
+        }
+    }
     let lenient = unseal_counting(b.name, f.purpose, false, &f.key, &text, &f.aad);
     let strict = unseal_counting(b.name, f.purpose, true, &f.key, &text, &f.aad);
     rep.count(&format!("error.{}", lenient.0));
